@@ -213,12 +213,53 @@ def op_local(op):
     return None
 
 
+def parse_rust_literal(text):
+    """Value of a Rust string / byte-string literal as printed by rustc (`"a\\n"`, `b"OK\\n"`)."""
+    t = text.strip()
+    if t.startswith("const "):
+        t = t[6:]
+    is_bytes = t.startswith('b"')
+    if is_bytes:
+        t = t[1:]
+    if len(t) < 2 or t[0] != '"' or t[-1] != '"':
+        return None
+    t = t[1:-1]
+    out = []
+    i = 0
+    simple = {"n": "\n", "t": "\t", "r": "\r", "0": "\0", "\\": "\\", '"': '"', "'": "'"}
+    while i < len(t):
+        ch = t[i]
+        if ch != "\\":
+            out.append(ch)
+            i += 1
+            continue
+        if i + 1 >= len(t):
+            return None
+        e = t[i + 1]
+        if e in simple:
+            out.append(simple[e])
+            i += 2
+        elif e == "x" and i + 3 < len(t) + 1:
+            out.append(chr(int(t[i + 2:i + 4], 16)))
+            i += 4
+        elif e == "u" and t[i + 2:i + 3] == "{":
+            j = t.index("}", i)
+            out.append(chr(int(t[i + 3:j], 16)))
+            i = j + 1
+        else:
+            return None
+    return "".join(out)
+
+
 def const_str(c):
     """String value of a &str/&[u8] constant, or None."""
     if c is None:
         return None
     b = c.get("bytes")
     if b is None:
+        ty = c.get("ty", "")
+        if ty.endswith("str") or "[u8" in ty:
+            return parse_rust_literal(c.get("c", ""))
         return None
     if "s" in b:
         return b["s"]
